@@ -1,5 +1,5 @@
 """Which units decide which property."""
-from props import KaniUnit
+from props import ArmsKaniUnit, KaniUnit
 from tv_units import AllocTVUnit, FlattenTVUnit, SimplifyTVUnit, BytecodeTVUnit
 
 LIBM_STUBS = [
@@ -7,7 +7,7 @@ LIBM_STUBS = [
     "f32::tan -> functional, NaN/inf->NaN, any non-NaN value",
     "f32::asin (up), f32::acos (down), f32::atan (up) -> functional, domain/range, monotone",
     "f32::exp (up), f32::ln (up), f32::sqrt (up) -> functional, special values, monotone",
-    "f32::atan2 -> NaN propagation, range [-pi,pi]",
+    "f32::atan2 -> functional, NaN propagation, range by quadrant, exact on the axes, monotone (dominance) inside each closed quadrant",
     "f32::powi(x,2) -> x*x",
 ]
 LIBM_ASSUME = [
@@ -23,6 +23,17 @@ INTERVAL_FNS = ["fidget_core::types::Interval::{new,abs,square,sin,cos,tan,asin,
                 "min_choice,max_choice,and_choice,or_choice,rem_euclid,floor,ceil,round,not,atan2,mix,rand,compare}",
                 "<Interval as Add/Sub/Mul/Mul<f32>/Div/Neg/From<f32>>"]
 
+ARM_ASSUME = ["the interpreter's loop and `match` dispatch are not executed symbolically (CBMC needs > 10 min for one pass over the "
+              "real loop); each arm's verbatim source text is compiled into a harness with a fixed 3-slot environment instead"]
+ARM_BOUNDS = {"slots": "out/lhs/rhs/mem symbolic in 0..3 (every aliasing form)", "lanes": "bulk evaluators: 2 lanes, symbolic lane checked",
+              "width": "all 2^32 bit patterns per operand (gradient arms: lattice operands, finite results)"}
+
+
+def arms(prefix, fn):
+    return ArmsKaniUnit(prefix, [fn + " (every match arm, source text extracted by lib/armgen.py)"], ARM_BOUNDS,
+                        LIBM_ASSUME + ARM_ASSUME, LIBM_STUBS)
+
+
 PROPS = {
     "C15": {
         "level": "translation_validation",
@@ -30,11 +41,12 @@ PROPS = {
     },
     "C04": {
         "level": "translation_validation",
-        "units": [SimplifyTVUnit()],
+        "units": [SimplifyTVUnit(),
+                  arms("c20_", "VmPointEval::eval / VmIntervalEval::eval choice clauses (the trace producers)")],
     },
     "C01": {
         "level": "translation_validation",
-        "units": [AllocTVUnit(), FlattenTVUnit()],
+        "units": [AllocTVUnit(), FlattenTVUnit(), arms("c01_", "VmPointEval::eval / VmFloatSliceEval::eval")],
     },
     "C11": {
         "level": "model_checking",
@@ -48,6 +60,7 @@ PROPS = {
     "C03": {
         "level": "model_checking",
         "units": [
+            arms("c03_", "VmIntervalEval::eval"),
             KaniUnit("kernels", "c03_", INTERVAL_FNS + ["fidget_core::context::{UnaryOpcode,BinaryOpcode}::eval"],
                      {"width": "all 2^32 bit patterns per endpoint/point for selection-shaped and monotone-libm kernels",
                       "lattice": LATTICE, "unwind": 8},
@@ -57,6 +70,7 @@ PROPS = {
     "C20": {
         "level": "model_checking",
         "units": [
+            arms("c20_", "VmPointEval::eval / VmIntervalEval::eval choice clauses (value, recorded choice, simplify flag, one slot consumed)"),
             KaniUnit("kernels", "c20_", ["<f32 as FloatExt>::{min_choice,max_choice,and_choice,or_choice}",
                                          "Interval::{min_choice,max_choice,and_choice,or_choice}",
                                          "Grad::{min,max,and,or}", "Choice::bitor_assign"],
@@ -67,6 +81,7 @@ PROPS = {
     "C05": {
         "level": "model_checking",
         "units": [
+            arms("c05_", "VmGradSliceEval::eval"),
             KaniUnit("kernels", "c05_", ["fidget_core::types::Grad::*", "<Grad as Add/Sub/Mul/Mul<f32>/Div/Neg>",
                                          "fidget_core::context::{UnaryOpcode,BinaryOpcode}::eval"],
                      {"width": "all 2^32 bit patterns per lane for value-lane and selection obligations",
